@@ -166,8 +166,16 @@ def run_case(case):
         else:
             rng = random.Random(case["sseed"])
             picked = [t for t in tg if rng.random() < case["fraction"]]
+        sub_rng = random.Random(case.get("sseed", 0))
         for kind, k, i, leaf in picked:
-            put(changes, kind, k, i, leaf.path, " " * leaf.width)
+            value = " " * leaf.width
+            half = case.get("half") if mode == "blank-one" else (sub_rng.choice([None, None, "real", "imag"]) if leaf.codec == "A-complex" else None)
+            if leaf.codec == "A-complex" and half:
+                # a complex entry is two numeric columns: blank only one of them
+                text = model.text_of(layout.encode_leaf(leaf.codec, leaf.width, leaf.value))
+                h = leaf.width // 2
+                value = (" " * h + text[h:]) if half == "real" else (text[:h] + " " * (leaf.width - h))
+            put(changes, kind, k, i, leaf.path, value)
         vspec, vinfo, flat, err = open_variant(spec, info, changes)
         if err is not None:
             return [harness.disc("exception", "open_alos2 with blank field(s)", "a tree", harness.exc_text(err), fields=[t[3].path for t in picked][:5])]
@@ -287,6 +295,9 @@ def enum_cases(tier):
                         yield {"base": name, "mode": mode, "index": index, "style": "numbers"}
                 else:
                     yield {"base": name, "mode": mode, "index": index}
+                    if leaf.codec == "A-complex":
+                        yield {"base": name, "mode": mode, "index": index, "half": "real"}
+                        yield {"base": name, "mode": mode, "index": index, "half": "imag"}
         for sseed in range(4 if tier == "quick" else 40):
             yield {"base": name, "mode": "pad-all", "sseed": sseed, "style": ["text", "numbers", None, None][sseed % 4]}
 
